@@ -13,6 +13,7 @@ import (
 	"sort"
 	"sync"
 	"sync/atomic"
+	"time"
 
 	"github.com/hyperjumptech/grule-rule-engine/ast"
 	"github.com/hyperjumptech/grule-rule-engine/builder"
@@ -246,6 +247,57 @@ func (p *proxyCtx) IncrementVariableChangeCount() {
 	p.IDataContext.IncrementVariableChangeCount()
 }
 
+// triggerCtx is a context whose end is triggered synchronously by the harness, either as a
+// cancellation or as an expired deadline (the engine only ever asks Err()).
+type triggerCtx struct {
+	mu       sync.Mutex
+	err      error
+	done     chan struct{}
+	flavour  error
+	errCalls int
+	atCall   int    // end the context just before the atCall-th Err() call (0 = never)
+	onEnd    func() // called (outside the lock) when atCall fires
+}
+
+func newTriggerCtx(flavour error) *triggerCtx {
+	return &triggerCtx{done: make(chan struct{}), flavour: flavour}
+}
+func (t *triggerCtx) Deadline() (time.Time, bool) {
+	if t.flavour == context.DeadlineExceeded {
+		return time.Unix(1, 0), true
+	}
+	return time.Time{}, false
+}
+func (t *triggerCtx) Done() <-chan struct{} { return t.done }
+func (t *triggerCtx) Err() error {
+	t.mu.Lock()
+	t.errCalls++
+	fire := t.atCall > 0 && t.errCalls == t.atCall && t.err == nil
+	t.mu.Unlock()
+	if fire && t.onEnd != nil {
+		t.onEnd()
+	}
+	t.mu.Lock()
+	defer t.mu.Unlock()
+	return t.err
+}
+
+// ErrCalls returns how often Err() was called.
+func (t *triggerCtx) ErrCalls() int {
+	t.mu.Lock()
+	defer t.mu.Unlock()
+	return t.errCalls
+}
+func (t *triggerCtx) Value(key interface{}) interface{} { return nil }
+func (t *triggerCtx) trigger() {
+	t.mu.Lock()
+	defer t.mu.Unlock()
+	if t.err == nil {
+		t.err = t.flavour
+		close(t.done)
+	}
+}
+
 // ---------------------------------------------------------------------------
 // knowledge bases
 
@@ -326,6 +378,9 @@ type RunCfg struct {
 	// CancelAtEvent > 0: cancel() is invoked synchronously when the n-th boundary event
 	// (BeginCycle, EvaluateRuleEntry, ExecuteRuleEntry, harness method call) occurs.
 	CancelAtEvent int
+	// CancelAtErrCall > 0 (Ctx must be a *triggerCtx): the context ends just before the engine's
+	// k-th ctx.Err() call.
+	CancelAtErrCall int
 	// Shared, when set, makes consecutive calls use ONE engine object and ONE data context
 	// (facts are re-added before every call), as an application that keeps both around does.
 	Shared *SharedEnv
@@ -430,6 +485,17 @@ func Run(kb *ast.KnowledgeBase, prog *Program, st State, cfg RunCfg) *RunResult 
 	}
 	rec := &Recorder{stamp: stamp, prog: prog, noSnap: cfg.NoSnap, onEvent: cfg.OnEvent}
 	res.Rec = rec
+	if tc, ok := cfg.Ctx.(*triggerCtx); ok && cfg.CancelAtErrCall > 0 {
+		tc.atCall = cfg.CancelAtErrCall
+		tc.onEnd = func() {
+			if rec.live != nil && !rec.noSnap {
+				rec.CancelSnap = CopyState(rec.live())
+			}
+			rec.CancelKind = "ctx.Err()"
+			tc.trigger()
+			rec.cancelEvent()
+		}
+	}
 	if cfg.CancelAtEvent > 0 && cfg.Cancel != nil {
 		user := cfg.OnEvent
 		rec.onEvent = func(kind string, n int) {
